@@ -639,7 +639,7 @@ def run_task(task):
 
 
 
-FH_OPS = ['fa', 'fb', 'bad', 'gd', 'gn']
+FH_OPS = ['fa', 'fb', 'bad', 'gd', 'gn', 'cf2']
 
 
 def _function_history(task, rec):
@@ -696,7 +696,7 @@ def _function_history(task, rec):
         return False
 
     for hist in itertools.product(FH_OPS, repeat=3):
-        if not any(o in ('bad', 'gd', 'gn') for o in hist) or hist[-1] == 'bad':
+        if not any(o in ('bad', 'gd', 'gn', 'cf2') for o in hist) or hist[-1] == 'bad':
             continue
         try:
             expr = R.Builder(G.betas_spec()).build(term)
@@ -709,11 +709,13 @@ def _function_history(task, rec):
         supplied = ['init']
         key = ('function_history', task['pool'], hist)
         ok = True
+        cur_db = db      # the table of the numbering the formula carries now (a call of a function re-installs that function's own)
         for step, op in enumerate(hist):
             try:
                 if op in ('fa', 'fb'):
                     p = op[1]
                     res = fct(np.array([pts[p][nm] for nm in names], dtype=float))
+                    cur_db = db
                     supplied.append(p)
                     ok = judge(hist, step, 'function-call', res.function_output if hasattr(res, 'function_output') else res, [p]) and ok
                 elif op == 'bad':
@@ -722,13 +724,23 @@ def _function_history(task, rec):
                         rec.count('function_history_too_long_vector_accepted')
                     except BiogemeError:
                         pass
+                elif op == 'cf2':
+                    # a second function made from the same formula for another Database object holding the same rows with its
+                    # columns in the reverse order; it is called at point b (the first function stays in use afterwards)
+                    db2 = make_db(data, list(reversed(G.COLUMNS)))
+                    fct2 = expr.create_function(database=db2, number_of_draws=10, gradient=True, hessian=True, bhhh=True)
+                    res = fct2(np.array([pts['b'][nm] for nm in names], dtype=float))
+                    cur_db = db2
+                    supplied.append('b')
+                    ok = judge(hist, step, 'second-function-on-a-table-with-other-column-order',
+                               res.function_output if hasattr(res, 'function_output') else res, ['b']) and ok
                 elif op == 'gd':
-                    res = expr.get_value_and_derivatives(betas={nm: pts['c'][nm] for nm in names}, database=db, gradient=True, hessian=True,
+                    res = expr.get_value_and_derivatives(betas={nm: pts['c'][nm] for nm in names}, database=cur_db, gradient=True, hessian=True,
                                                          bhhh=True, aggregation=True, prepare_ids=False)
                     supplied.append('c')
                     ok = judge(hist, step, 'formula-with-dictionary', res, ['c']) and ok
                 else:
-                    res = expr.get_value_and_derivatives(database=db, gradient=True, hessian=True, bhhh=True, aggregation=True,
+                    res = expr.get_value_and_derivatives(database=cur_db, gradient=True, hessian=True, bhhh=True, aggregation=True,
                                                          prepare_ids=False)
                     ok = judge(hist, step, 'formula-without-values', res, list(dict.fromkeys(reversed(supplied)))) and ok
             except Exception as e:
